@@ -118,6 +118,18 @@ CHECKS.update({
     ),
 })
 
+CHECKS.update({
+    "C14": dict(
+        text="Lean theorem parses: RFC 4515 §3 is transcribed as an inductive relation Sent f t (one constructor per production, every freedom: "
+             "escapes in either hex case, raw octets, empty values, options, OIDs, dn in any case, the documented tolerated spaces); for every "
+             "derivation the parser returns exactly the denoted tree (any Unicode white space around the sentence is stripped first); the denoted "
+             "tree is a well-formed message component and the SearchRequest carrying it encodes to bytes that the strict RFC 4511 decoder reads "
+             "back (by C03).",
+        technique="Lean 4 proof (induction on grammar derivations) + correspondence + generated-sentence search",
+        ref="DESIGN.md §4 C14",
+    ),
+})
+
 NOT_YET = {
 }
 
